@@ -188,6 +188,14 @@ def run_property(mod, tier: str, seed: int, replay: str | None = None) -> int:
     if not aud["ok"]:
         violations.append({"kind": "proof", "detail": aud["problems"]})
 
+    # --- translator tie: definitions regenerated from the current source, refinement theorems re-checked against them
+    tie = []
+    if aud["ok"] and getattr(mod, "GEN_TIE", None):
+        from . import gen_tie
+        tie = [gen_tie.check(u) for u in mod.GEN_TIE]
+    tie_broken = [t for t in tie if not t["ok"]]
+    tie_note = [{"unit": t["unit"], "state": t["state"], "problems": t["problems"], "diff": t.get("diff")} for t in tie_broken]
+
     # --- cases
     if replay:
         rp = json.loads(open(replay).read())
@@ -247,10 +255,11 @@ def run_property(mod, tier: str, seed: int, replay: str | None = None) -> int:
         nrep += 1
         path = core.write_replay(prop, seed, nrep, {
             "property": prop, "seed": seed, "kind": "property fails on the implementation",
-            "failures": oracle_of(mod, small, io2), "case": small, "impl": io2})
+            "failures": oracle_of(mod, small, io2), "case": small, "impl": io2,
+            **({"also_no_longer_checks": tie_note} if tie_note else {})})
         violations.append({"kind": "oracle", "replay": str(path), "detail": oracle_of(mod, small, io2)[:3]})
 
-    if disagree and not [v for v in violations if v["kind"] == "oracle"]:
+    if (disagree or tie_broken) and not [v for v in violations if v["kind"] == "oracle"]:
         # the correspondence broke: search for an input on which the property itself fails
         extra = []
         if not replay:
@@ -274,8 +283,13 @@ def run_property(mod, tier: str, seed: int, replay: str | None = None) -> int:
             path = core.write_replay(prop, seed, nrep, {
                 "property": prop, "seed": seed, "kind": "property fails on the implementation (found after the correspondence broke)",
                 "failures": oracle_of(mod, small, io2), "case": small, "impl": io2,
-                "correspondence_case": disagree[0][0], "differences": disagree[0][2]})
+                **({"correspondence_case": disagree[0][0], "differences": disagree[0][2]} if disagree else {}),
+                **({"also_no_longer_checks": tie_note} if tie_note else {})})
             violations.append({"kind": "oracle", "replay": str(path), "detail": oracle_of(mod, small, io2)[:3]})
+        elif not disagree:
+            # only the translator tie broke and no failing input was found: the property is no longer shown to hold
+            violations.append({"kind": "proof", "detail": [f"{t['unit']}: {t['state']}: " + "; ".join(t["problems"])[:700] for t in tie_broken]
+                               + [l for t in tie_broken for l in (t.get("diff") or [])][:30]})
         else:
             c, kind, d, io, mo = disagree[0]
             small = shrink(mod, c, is_disagreement) if not replay else c
@@ -306,6 +320,7 @@ def run_property(mod, tier: str, seed: int, replay: str | None = None) -> int:
         "trusted_base": core.TRUSTED_BASE + getattr(mod, "EXTRA_TRUST", []),
         "theorems": aud["theorems"], "axioms": aud.get("axioms", {}), "examples_non_vacuity": aud["examples"],
         "leanchecker": lc_note,
+        "source_tie": [{k: t.get(k) for k in ("unit", "source", "state", "digest", "theorem_files", "problems")} for t in tie],
         "evaluations": res.evaluations, "distinct_nontrivial": res.nontrivial,
         "rule": mod.RULE, "samples": res.samples[:3],
         "traces_validated_against_impl": res.traces,
